@@ -1,4 +1,5 @@
 import AnonCreds.Props.C17
+import AnonCreds.Props.C01
 /-
 C05 — predicate proofs are bound to the referenced signed claim.
 (1) The index → response lookup (`get_hidden_message_proofs`) on a strictly ascending list — which
@@ -217,5 +218,76 @@ theorem unsorted_list_shifts_slot :
 /-- while the sorted list gives message 2 its own response -/
 example : hiddenProofs 5 0 [1, 3] ([10, 12, 14, 100, 101] : List Nat) = some [(0, 10), (2, 12), (4, 14)] := by
   decide
+
+/-! ### decision logic: no accepted predicate without a link (Model/Verify.lean) -/
+section link
+open AC.Verify
+variable {F : Type} [DecidableEq F]
+
+/-- **Accepted ⇒ every predicate is linked.** If `verify` accepts, each revocation / membership /
+commitment / encryption statement refers to an entry of the presentation that is a *signature* proof,
+whose own id names a signature statement of the schema, and whose index → response lookup contains the
+statement's claim index — in particular the claim is hidden: a predicate over a disclosed claim (for
+which no response exists and nothing could link the predicate proof to the credential) is rejected. -/
+theorem verify_ok_predicate_linked (enc : ClaimData → F) (stmts : List Stmt) (p : Pres F) (ck : Checks)
+    (h : verify enc stmts p ck = .ok) (q : PredStmt) (hq : Stmt.pred q ∈ stmts)
+    (hk : q.kind ≠ .equality ∧ q.kind ≠ .range ∧ q.kind ≠ .signature) :
+    ∃ r c rest, q.refs = (r, c) :: rest ∧ resolveRef stmts p r c = true := by
+  obtain ⟨hplan, _, _⟩ := C01.verify_ok_checks enc stmts p ck h
+  have hpred := (C01.planStage_none enc stmts p hplan).2.2
+  have hmem : q ∈ stmts.filterMap (fun | .pred q => some q | _ => none) := by
+    rw [List.mem_filterMap]; exact ⟨.pred q, hq, rfl⟩
+  have hp := C01.firstSome_none _ _ hpred q hmem
+  unfold planPred at hp
+  split at hp
+  · cases hp
+  · rename_i pr hpr
+    split at hp
+    · cases hp
+    · obtain ⟨h1, h2, h3⟩ := hk
+      cases hkind : q.kind <;> simp only [hkind] at hp h1 h2 h3 <;> first
+        | exact absurd rfl h1
+        | exact absurd rfl h2
+        | exact absurd rfl h3
+        | (cases hrefs : q.refs with
+           | nil => rw [hrefs] at hp; cases hp
+           | cons rc rest =>
+             rw [hrefs] at hp
+             obtain ⟨r, c⟩ := rc
+             simp only at hp
+             by_cases hres : resolveRef stmts p r c = true
+             · exact ⟨r, c, rest, rfl, hres⟩
+             · simp [hres] at hp)
+
+omit [DecidableEq F] in
+/-- what "resolves" means, spelled out -/
+theorem resolveRef_spec (stmts : List Stmt) (p : Pres F) (r : String) (c : Nat)
+    (h : resolveRef stmts p r c = true) :
+    ∃ pr, p.proofs.lookup r = some pr ∧ pr.kind = .signature ∧
+      (∃ s, stmts.find? (·.id == pr.innerId) = some (.sig s)) ∧
+      ∃ l, pr.hiddenIdx = some l ∧ c ∈ l := by
+  unfold resolveRef at h
+  cases hl : p.proofs.lookup r with
+  | none => rw [hl] at h; cases h
+  | some pr =>
+    rw [hl] at h
+    simp only [Bool.and_eq_true] at h
+    obtain ⟨⟨h1, h2⟩, h3⟩ := h
+    refine ⟨pr, rfl, by simpa using h1, ?_, ?_⟩
+    · cases hf : stmts.find? (·.id == pr.innerId) with
+      | none => rw [hf] at h2; cases h2
+      | some st =>
+        rw [hf] at h2
+        cases st with
+        | sig s => exact ⟨s, rfl⟩
+        | pred _ => cases h2
+    · cases hh : pr.hiddenIdx with
+      | none => rw [hh] at h3; cases h3
+      | some l =>
+        rw [hh] at h3
+        exact ⟨l, rfl, by simpa using h3⟩
+
+
+end link
 
 end AC.C05
